@@ -96,6 +96,8 @@ impl Exp {
                     if let Exp::Number(coefficient) = &**lhs {
                         // exact test: near-zero coefficients are still meaningful scales
                         if *coefficient == 0.0 {
+                            // a division under a zero factor is still diagnosed
+                            diagnose_divisions(rhs)?;
                             return Ok(LinearizationContext::from_rhs(0.0));
                         }
                         let mut rhs = rhs.linearize(
@@ -106,6 +108,7 @@ impl Exp {
                         Ok(rhs)
                     } else if let Exp::Number(coefficient) = &**rhs {
                         if *coefficient == 0.0 {
+                            diagnose_divisions(lhs)?;
                             return Ok(LinearizationContext::from_rhs(0.0));
                         }
                         let mut lhs = lhs.linearize(
@@ -1296,6 +1299,45 @@ fn sum_exps(exps: &[Exp]) -> Exp {
     let mut iter = exps.iter().cloned();
     let first = iter.next().unwrap_or(Exp::Number(0.0));
     iter.fold(first, add_exp)
+}
+
+/// Reports the division errors of an expression that is not lowered because a
+/// zero factor cancels it: a zero or non-constant divisor is an error there too.
+fn diagnose_divisions(exp: &Exp) -> Result<(), LinearizationError> {
+    let mut pending = vec![exp];
+    while let Some(current) = pending.pop() {
+        match current {
+            Exp::Number(_) | Exp::Variable(_) => {}
+            Exp::BinOp(BinOp::Div, lhs, rhs) => {
+                match &**rhs {
+                    Exp::Number(divisor) if *divisor == 0.0 => {
+                        return Err(LinearizationError::DivisionByZero(Box::new(
+                            current.clone(),
+                        )));
+                    }
+                    Exp::Number(_) => {}
+                    _ => {
+                        return Err(LinearizationError::NonLinearExpression(Box::new(
+                            current.clone(),
+                        )));
+                    }
+                }
+                pending.push(lhs);
+            }
+            Exp::BinOp(_, lhs, rhs)
+            | Exp::Xor(lhs, rhs)
+            | Exp::Implies(lhs, rhs)
+            | Exp::Iff(lhs, rhs) => {
+                pending.push(lhs);
+                pending.push(rhs);
+            }
+            Exp::Abs(inner) | Exp::Not(inner) | Exp::UnOp(_, inner) => pending.push(inner),
+            Exp::Min(exps) | Exp::Max(exps) | Exp::And(exps) | Exp::Or(exps) => {
+                pending.extend(exps);
+            }
+        }
+    }
+    Ok(())
 }
 
 /// Rejects expressions holding an infinite or NaN constant (such as the
